@@ -41,6 +41,10 @@ func VerifC11Size() {
 	s := cfg.NewFullKV(vNop())
 	vSymPre(s.baseStore, p, valLen)
 	vCheckSize(s.baseStore, "size-pre")
+	// every applied delta is checked against the limit, so a store never holds more than it
+	if preSize, _ := vRealSize(s.baseStore); preSize > cfg.totalSizeLimit {
+		sym.Assume(false)
+	}
 
 	var lastOps []vOp                         // operations of the last executed block
 	var lastDeltas []*pbsubstreams.StoreDelta // its deltas, while it can be undone
@@ -102,7 +106,10 @@ func VerifC11Size() {
 			vRecord(part, p, o)
 		}
 		if err := part.Flush(); err != nil {
-			sym.Unreachable("partial-flush-ok")
+			// the segment's own content went over the limit
+			psize, _ := vRealSize(part.baseStore)
+			sym.Assert(psize > cfg.totalSizeLimit, "partial-too-big-only-when-really-too-big")
+			sym.Reach("partial-too-big")
 			return
 		}
 		part.Reset()
